@@ -403,6 +403,39 @@ func inputDerived(v ssa.Value, depth int, seen map[ssa.Value]bool) bool {
 	return false
 }
 
+// resliceOfInput: v is a re-slice (s[i:j]) of input storage, possibly carried round a loop (phi) or through
+// earlier appends. Appending to such a value overwrites elements the caller can still see; appending to the input
+// slice itself only touches spare capacity and is not counted.
+func resliceOfInput(v ssa.Value, depth int, seen map[ssa.Value]bool) bool {
+	if v == nil || depth > 8 || seen[v] {
+		return false
+	}
+	seen[v] = true
+	switch x := v.(type) {
+	case *ssa.Slice:
+		return inputDerived(x.X, 0, map[ssa.Value]bool{})
+	case *ssa.Phi:
+		for _, e := range x.Edges {
+			if resliceOfInput(e, depth+1, seen) {
+				return true
+			}
+		}
+	case *ssa.Call:
+		if b, ok := x.Call.Value.(*ssa.Builtin); ok && b.Name() == "append" {
+			return resliceOfInput(x.Call.Args[0], depth+1, seen)
+		}
+	case *ssa.UnOp:
+		if al, ok := x.X.(*ssa.Alloc); ok && x.Op == token.MUL && al.Referrers() != nil {
+			for _, ref := range *al.Referrers() {
+				if st, ok := ref.(*ssa.Store); ok && st.Addr == ssa.Value(al) && resliceOfInput(st.Val, depth+1, seen) {
+					return true
+				}
+			}
+		}
+	}
+	return false
+}
+
 // writesInput: the instruction may write into memory that belongs to the function's inputs.
 func writesInput(f *ssa.Function, in ssa.Instruction) string {
 	der := func(v ssa.Value) bool { return inputDerived(v, 0, map[ssa.Value]bool{}) }
@@ -432,7 +465,7 @@ func writesInput(f *ssa.Function, in ssa.Instruction) string {
 			switch b.Name() {
 			case "append":
 				// appending to a re-slice of input storage writes into the input's backing array
-				if _, isSlice := cc.Args[0].(*ssa.Slice); isSlice && der(cc.Args[0]) {
+				if resliceOfInput(cc.Args[0], 0, map[ssa.Value]bool{}) {
 					return "appends to a re-slice of " + firstN(pathOf(cc.Args[0]), 50) + " (writes into its input's backing array)"
 				}
 			case "copy":
